@@ -16,7 +16,7 @@ def t(case):
     out = runner.run_case(prop, case)
     tot[0] += 1
     if not out.ok:
-        key = out.kind + " " + ",".join(f for f in out.features if f in ("or_diff_vars","or_same_vars","not","pred","and_right_or","unconstrained_var","self_join","no_cond","empty_domain", "not_under_not"))
+        key = out.kind + " " + ",".join(f for f in out.features if f in ("or_diff_vars","or_same_vars","not","pred","and_right_or","unconstrained_var","self_join","no_cond","empty_domain", "not_under_not") or f.startswith(("ref_","alt_","caching_")))
         kinds[key] += 1
         size = len(json.dumps(case))
         if key not in ex or size < ex[key][0]:
